@@ -53,7 +53,7 @@ def C18():
              "in which some diagram has a non-zero second landscape function or two touching intervals"),
     "bounds": {
         "quick": ("exact form: every diagram with <= 4 intervals over endpoints {0..5} in every distinct input order (levels "
-                  "0..n+1, 37 abscissae); every unordered pair of the 286 diagrams with <= 3 intervals over {0..4}; every ordered "
+                  "0..n+1 at the 33 multiples of 1/4 in [-1,7]); every unordered pair of the 286 diagrams with <= 3 intervals over {0..4}; every ordered "
                   "triple of the 28 diagrams with <= 2 intervals over {0..3}.  gridded form, 4 grids: every diagram with <= 3 "
                   "intervals over {0..5} in every input order; grids [0,5]/0.5 and [1,4]/0.25: every unordered pair of the 286 "
                   "diagrams (<= 3 intervals over {0..4}); every ordered triple of the 28 diagrams (<= 2 intervals over {0..3})"),
